@@ -63,7 +63,7 @@ fn gen_query(rng: &mut Rng, dim: usize, pool: &mut Vec<Vec<u32>>, salt: &mut u64
 pub fn gen_plan(seed: u64, run: u64, tier: &str) -> Plan {
     let mut rng = Rng::for_run(seed, "C06", run);
     let mut cfg = TCfg::gen(&mut rng);
-    cfg.dim = *rng.pick(&[1usize, 3, 7, 8, 9, 15, 16, 17, 33, 4, 31, 32, 40, 64]);
+    cfg.dim = *rng.pick(&[1usize, 3, 7, 8, 9, 15, 16, 17, 33, 4, 31, 32, 40, 64, 48, 80, 100, 112]);
     cfg.capacity = *rng.pick(&[8usize, 24, 64, 1000]);
     cfg.qc_cap = *rng.pick(&[1usize, 2, 5, 50]);
     cfg.qc_threshold_milli = *rng.pick(&[1000u32, 1000, 1000, 950]);
